@@ -361,23 +361,32 @@ Proof.
   rewrite lines_count_aux_snoc by exact Hc. rewrite count_lf_snoc_lf. reflexivity.
 Qed.
 
-(** ** the generator recognises the comment kind, except for "[x[" texts *)
+(** ** the generator's classification is the reference lexer's (since /repo commit fc507f0) *)
 
-Lemma chars_before_bracket_eqs n rest k :
-  chars_before_bracket (repeat 61 n ++ 91 :: rest) k = Some (k + n)%nat.
+Lemma skip_eqs_count_eqs s n : skip_eqs s = snd (count_eqs s n).
 Proof.
-  revert k; induction n as [|m IH]; intros k; cbn [repeat app chars_before_bracket].
-  - rewrite N.eqb_refl. f_equal. lia.
-  - replace (61 =? 91) with false by reflexivity. replace (is_continuation 61) with false by reflexivity.
-    rewrite IH. f_equal. lia.
+  revert n; induction s as [|c s IH]; intros n; [reflexivity|].
+  destruct (N.eq_dec c 61) as [->|Hc].
+  - cbn [skip_eqs count_eqs]. apply IH.
+  - destruct c as [|p]; [reflexivity|].
+    do 6 (destruct p as [p|p|]; try reflexivity). all: try (exfalso; apply Hc; reflexivity).
+    all: destruct p; reflexivity.
 Qed.
 
-Lemma forallb_firstn_repeat n m rest : (m <= n)%nat ->
-  forallb (N.eqb 61) (firstn m (repeat 61 n ++ rest)) = true.
+(** a comment is taken for a long comment exactly when a long-bracket opener follows "--" *)
+Theorem classifier_agrees : forall t,
+  is_multiline_comment (45 :: 45 :: t) = match long_open t with Some _ => true | None => false end.
 Proof.
-  revert m; induction n as [|n IH]; intros m Hm.
-  - replace m with 0%nat by lia. reflexivity.
-  - destruct m as [|m]; [reflexivity|]. cbn [repeat app firstn forallb]. rewrite IH by lia. reflexivity.
+  intros t. unfold is_multiline_comment, long_open.
+  destruct t as [|c t]; [reflexivity|].
+  destruct (N.eq_dec c 91) as [->|Hc].
+  - rewrite (skip_eqs_count_eqs t 0). destruct (count_eqs t 0) as [n t1]. cbn [snd].
+    destruct t1 as [|d t1]; [reflexivity|].
+    destruct (N.eq_dec d 91) as [->|Hd]; [reflexivity|].
+    destruct d as [|p]; [reflexivity|].
+    do 7 (destruct p as [p|p|]; try reflexivity). all: exfalso; apply Hd; reflexivity.
+  - destruct c as [|p]; [reflexivity|].
+    do 7 (destruct p as [p|p|]; try reflexivity). all: exfalso; apply Hc; reflexivity.
 Qed.
 
 Theorem multiline_recognised : forall text, has_lf text = true ->
@@ -385,28 +394,21 @@ Theorem multiline_recognised : forall text, has_lf text = true ->
 Proof.
   intros text Hlf. unfold comment_of.
   destruct text as [|c0 text0] eqn:Et; [discriminate|]. rewrite <- Et in *. rewrite Hlf.
-  generalize (comment_level text). intros n. unfold is_single_line_comment. apply negb_false_iff.
-  unfold long_opener. cbn [app]. unfold is_multiline_comment.
-  rewrite <- app_assoc. cbn [app]. rewrite chars_before_bracket_eqs. cbn [Nat.add].
-  destruct (Nat.ltb n 3) eqn:E3; [reflexivity|].
-  destruct (is_char_boundary _ n); [|reflexivity].
-  apply Nat.ltb_ge in E3. cbn [skipn].
-  apply forallb_firstn_repeat. lia.
+  unfold is_single_line_comment. apply negb_false_iff. cbn [app].
+  rewrite classifier_agrees. rewrite long_open_opener. reflexivity.
 Qed.
 
-Theorem singleline_recognised : forall c text, has_lf (c :: text) = false -> c <> 91 ->
-  is_single_line_comment (comment_of (c :: text)) = true.
+(** every single-line text that is not itself an opener gives a comment the generator treats
+    as a line comment (before fc507f0 this failed for texts like "[a[") *)
+Theorem singleline_recognised : forall text, text <> [] -> has_lf text = false ->
+  Known_opener text = false -> is_single_line_comment (comment_of text) = true.
 Proof.
-  intros c text Hlf Hc. unfold comment_of. rewrite Hlf. cbn [app].
-  unfold is_single_line_comment, is_multiline_comment.
-  destruct c as [|p]; [reflexivity|].
-  do 7 (destruct p as [p|p|]; try reflexivity). all: exfalso; apply Hc; reflexivity.
+  intros text Hne Hlf Hop. unfold comment_of.
+  destruct text as [|c0 text0] eqn:Et; [congruence|]. rewrite <- Et in *. rewrite Hlf.
+  unfold is_single_line_comment. apply negb_true_iff. cbn [app]. rewrite classifier_agrees.
+  unfold Known_opener in Hop. rewrite Hlf in Hop. cbn [negb andb] in Hop.
+  destruct (long_open text); [discriminate|reflexivity].
 Qed.
-
-(** "[a[": the reference lexer sees a short comment, the generator a long one *)
-Theorem singleline_recognised_refuted : exists text, has_lf text = false /\ Known_opener text = false /\
-  Known_cr text = false /\ is_single_line_comment (comment_of text) = false.
-Proof. exists [91; 97; 91]. repeat split; reflexivity. Qed.
 
 (** * Trivia filters keep the code tokens and remove exactly the selected comments *)
 
